@@ -32,6 +32,12 @@ def kind_of(f, e, depth=0):
     if e is None or depth > 4:
         return None
     k = e["k"]
+    if k == "MemberExpr" and e.get("mk") == "field" and e.get("n") == "_ncol":
+        return "COL"
+    if k == "MCall" and (e.get("callee") or "").split("::")[-1] == "size":
+        o = call_obj(e)
+        if o is not None and o["k"] == "MemberExpr" and o.get("n") == "_uidcol":
+            return "UID"
     if k in ("MCall", "Call"):
         short = (e.get("callee") or "").split("::")[-1]
         cls = e.get("cls") or ""
@@ -105,4 +111,36 @@ def rule(prog, chk, rule_id, file_filter, floor_n, accepted=None):
                            "column index / count" if got == "COL" else "persistent identifier", show(a)[:40], P[i][0],
                            "persistent identifier" if want == "UID" else "column index"),
                        key="%s|%s|%s(%s)#%d" % (rule_id, f.name, short, show(a)[:30], i), nontrivial=got != want)
+    chk.floor(rule_id, n, floor_n)
+
+
+def table_rule(prog, chk, rule_id, floor_n):
+    """the table `_uidcol` of Db is subscripted by identifiers and holds column indices: `_uidcol[<column index>]` and
+    `_uidcol[..] = <identifier / number of identifiers>` are kind errors (sibling functions addColumnsByConstant /
+    addColumnsRandom must both store `ncol + i`)."""
+    n = 0
+    for f in sorted(prog.funcs, key=lambda x: (x.file, x.line)):
+        if f.body is None or not (f.cls or "").startswith("Db"):
+            continue
+        for x in f.walk():
+            if not (x["k"] == "Index" or (x["k"] == "OpCall" and x.get("op") == "[]")):
+                continue
+            b = x["c"][0]
+            if b is None or b["k"] != "MemberExpr" or b.get("n") != "_uidcol":
+                continue
+            ki = kind_of(f, x["c"][1])
+            par = f.parent(x)
+            kv = None
+            if par is not None and par["k"] == "Assign" and par.get("op") == "=" and par["c"][0] is x:
+                kv = kind_of(f, par["c"][1])
+            n += 1
+            bad = ki == "COL" or kv == "UID"
+            if bad:
+                chk.analysed(f)
+            chk.ob(rule_id, "%s: `%s`%s respects the kinds of the identifier table" % (f.name, show(x)[:30], (" = " + show(par["c"][1])[:20]) if kv or (par is not None and par["k"] == "Assign" and par["c"][0] is x) else ""),
+                   f.loc(x), not bad,
+                   detail=None if not bad else ("the table is subscripted with a column index" if ki == "COL" else
+                   "an identifier (or the number of identifiers issued) is stored where the column index belongs") +
+                   ": identifiers and column indices coincide only until a column is deleted; afterwards the entry designates another column (or none)",
+                   key="%s|%s|%s" % (rule_id, f.name, show(x)[:30]), nontrivial=bad)
     chk.floor(rule_id, n, floor_n)
